@@ -1894,9 +1894,20 @@ impl NestedLoopJoinStream {
         }
 
         if active.pending_batches.is_empty() {
-            // No data at all — go directly to Done
+            // No (more) left data. Besides an empty left side this is also
+            // reached when the left stream ends exactly at a chunk boundary
+            // (the batch that hit the memory limit was the last one): earlier
+            // chunks have been probed then, so the right-side emission deferred
+            // to `EmitGlobalRightUnmatched` must still happen.
             self.left_exhausted = true;
-            self.state = NLJState::Done;
+            if self.should_track_unmatched_right {
+                // Drop the exhausted right stream of the previous pass so
+                // that a fresh replay pass is opened.
+                self.right_data = None;
+                self.state = NLJState::EmitGlobalRightUnmatched;
+            } else {
+                self.state = NLJState::Done;
+            }
             return ControlFlow::Continue(());
         }
 
